@@ -1128,20 +1128,29 @@ def default_fragment_module(idx, entry):
     head = derive_head(["Default"], entry)
     return """pub mod m%d {
     macro_rules! mk { ($b:expr, $t:ty, $c:expr) => {
+        mk2!("abc", ::dx_support::SRC7, $b);
         %s pub struct D(#[default($b * 2)] pub u32, #[default(7 - $b)] pub u32, #[default($b)] pub u32, #[default(<$t>::MAX - ($b))] pub $t, #[default($c as u32 * 2)] pub u32);
         %s #[default(D2($b * 2, !$b))] pub struct D2(pub u32, pub u32);
         %s pub enum E { A, #[default] B { #[default(-$b)] x: i32, #[default(2 * $b)] y: i32, #[default($c * 3)] z: i64 } }
         pub fn plain() -> (u32, u32, u32, $t, u32, u32, u32, i32, i32, i64) { ($b * 2, 7 - $b, $b, <$t>::MAX - ($b), $c as u32 * 2, $b * 2, !$b, -$b, 2 * $b, $c * 3) }
     } }
+    // a fragment that IS the whole default expression: a string literal / a path still goes through Into, anything else is taken as is
+    macro_rules! mk2 { ($s:expr, $p:expr, $n:expr) => {
+        HEADX pub struct F { #[default($s)] pub s: ::std::string::String, #[default($p)] pub p: ::dx_support::Pr, #[default($n)] pub n: u32, #[default($s)] pub r: &'static str }
+        pub fn plain2() -> (::std::string::String, ::dx_support::Pr, u32, &'static str) {
+            (::core::convert::Into::<::std::string::String>::into($s), ::core::convert::Into::<::dx_support::Pr>::into($p), $n, $s) }
+    } }
     mk!(1 + 2, u32, 4 - 1);
     pub fn run() -> String {
+        let f = <F as ::core::default::Default>::default();
+        let ok2 = (f.s, f.p, f.n, f.r) == plain2();
         let d = <D as ::core::default::Default>::default();
         let d2 = <D2 as ::core::default::Default>::default();
         let e = match <E as ::core::default::Default>::default() { E::B { x, y, z } => (x, y, z), E::A => (0, 0, 0) };
         let got = (d.0, d.1, d.2, d.3, d.4, d2.0, d2.1, e.0, e.1, e.2);
-        format!("{{\\"id\\":%d,\\"ev\\":\\"same_as_twin\\",\\"equal\\":{},\\"got\\":\\"{:?}\\",\\"want\\":\\"{:?}\\"}}\n", got == plain(), got, plain())
+        format!("{{\\"id\\":%d,\\"ev\\":\\"same_as_twin\\",\\"equal\\":{},\\"got\\":\\"{:?}\\",\\"want\\":\\"{:?}\\"}}\n", got == plain() && ok2, got, plain())
     }
-}""" % (idx, head, head, head, idx)
+}""".replace("HEADX", head) % (idx, head, head, head, idx)
 
 
 def debug_wrapped_tail_module(idx, entry):
